@@ -58,13 +58,35 @@ def fit(t, z, spec, case=None):
         # seasonal phase, other length and level): only the LAST fit counts
         n0 = len(z) + 3
         other = gen.build_series([9.0 + 2.5 * ((j * 7) % 5) + 0.31 * j for j in range(n0)], int(z.index[0]) + case["prefit"], case["index_kind"])
+        alt = _other_params(spec) if case.get("prefit_other_params") else None
         try:
+            if alt is not None:
+                # ... and with other parameter values, changed through set_params before re-fitting
+                t.set_params(**build(alt).get_params(deep=False))
             t.fit(other, fh=[1]) if spec["kind"] == "pipeline_as_transformer" else t.fit(other)
         except Exception:  # noqa: BLE001  (a refused earlier fit leaves a fresh object)
             pass
+        if alt is not None:
+            t.set_params(**build(spec).get_params(deep=False))
     if spec["kind"] == "pipeline_as_transformer":
         return t.fit(z.copy(), fh=[1])
     return t.fit(z.copy())
+
+
+def _other_params(spec):
+    """The same kind of transformer with other parameter values (None if it has none to vary)."""
+    k = spec["kind"]
+    if k == "passthrough":
+        return dict(spec, passthrough=not spec["passthrough"])
+    if k in ("deseason", "cond_deseason"):
+        return dict(spec, sp=spec["sp"] + 1, model="additive" if spec["model"] == "multiplicative" else "multiplicative")
+    if k == "detrend":
+        return dict(spec, degree=(spec["degree"] + 1) % 3)
+    if k == "boxcox":
+        return dict(spec, method="mle" if spec.get("method") != "mle" else "pearsonr")
+    if k == "scaler":
+        return dict(spec, which="minmax" if spec.get("which", "standard") == "standard" else "standard")
+    return None
 
 
 def close(a, b, tol=1e-7):
@@ -281,7 +303,7 @@ def base_case(draw, spec_strategy):
         # the stretch may also start before the training series (overlapping it or not)
         "off": draw(st.one_of(st.integers(0, n + 20), st.integers(0, n + 20), st.integers(-14, -1))), "m": draw(st.integers(2, 20)),
         "reuse_train_values": draw(st.booleans()),
-        "prefit": draw(st.sampled_from([None, None, None, -5, 1, 2, 7])),
+        "prefit": draw(st.sampled_from([None, None, None, -5, 1, 2, 7])), "prefit_other_params": draw(st.booleans()),
         "updates": draw(st.lists(st.integers(1, 7), max_size=2)),
     }
 
